@@ -1,6 +1,7 @@
 import UtilModel.Routine.ProofsObs2
 import UtilModel.Routine.ProofsC05
 import UtilModel.Routine.ProofsC14
+import UtilModel.Routine.Monitors
 /-!
 # routine: observable form of the first sentence of C05 (superseded instances are seen cancelled)
 
@@ -450,25 +451,24 @@ theorem curNew_restartCS (s : St) : (restartCS s).2 = false ∨ CurNew s (restar
       · exact Or.inl rfl
       · right
         intro n hcur
-        generalize hS : ({ (cancelOpt (normCtx s) x.cancelOf) with
-            recs := ((cancelOpt (normCtx s) x.cancelOf).recs.set r { x with cancelOf := none }).set r
-              { x with cancelOf := none, exitedCh := none } } : St) = S at hcur
-        have hSr : S.routine = some r := by rw [← hS]; simpa using hr
-        have hSl : S.insts.length = s.insts.length := by rw [← hS]; simp
         have hlt : r < (cancelOpt (normCtx s) x.cancelOf).recs.length := by simpa using get_lt hx
-        have hSx : S.recs[r]? = some { x with cancelOf := none, exitedCh := none } := by
-          rw [← hS]; simp [hlt]
-        have hcur' : curInst (startRec S r S.ctx x.exitedCh true) = some n := by
-          rw [← hS] at hcur ⊢; exact hcur
-        obtain ⟨_, _, _, h4⟩ := startRec_spawn S r S.ctx x.exitedCh true _ hSx (by simp)
-        have hr' : (startRec S r S.ctx x.exitedCh true).routine = some r := by
-          rcases startRec_cases S r S.ctx x.exitedCh true with e | ⟨_, _, _, e, _⟩
-          · rw [e]; exact hSr
-          · rw [e]; exact hSr
-        have := h4 r
-        simp only [if_true] at this
-        rw [(curInst_of hr' this).1] at hcur'
-        cases hcur'; omega
+        have key : ∀ S : St, S.routine = some r → S.insts.length = s.insts.length → (∃ y, S.recs[r]? = some y) →
+            ∀ (c : Nat) (w : Option Nat) (n : Nat), curInst (startRec S r c w true).bcastNow = some n →
+            s.insts.length ≤ n := by
+          intro S hSr hSl ⟨y, hy⟩ c w n hc
+          obtain ⟨_, h2, _, h4⟩ := startRec_spawn S r c w true y hy (by simp)
+          have hr' : (startRec S r c w true).routine = some r := by rw [h2]; exact hSr
+          have := h4 r
+          simp only [if_true] at this
+          have e := (curInst_of hr' this).1
+          have hc' : curInst (startRec S r c w true) = some n := hc
+          rw [e] at hc'; cases hc'; omega
+        dsimp only at hcur
+        refine key _ ?_ ?_ ?_ _ _ n hcur
+        · simpa using hr
+        · simp
+        · have hlt' : r < s.recs.length := by simpa using hlt
+          exact ⟨_, by simp only [cancelOpt_recs, normCtx_recs, List.set_set]; exact get_set_self' _ hlt'⟩
 
 theorem curNew_setRoutineLocked (s : St) (f arg : Nat) : CurNew s (setRoutineLocked s f arg).1 := by
   have hdn := (curInst_none (detachPrev_routine (normCtx s))).1
@@ -477,17 +477,19 @@ theorem curNew_setRoutineLocked (s : St) (f arg : Nat) : CurNew s (setRoutineLoc
   intro n hcur
   split at hcur
   · split at hcur
-    · generalize hS : ({ (detachPrev (normCtx s)).1 with
-          recs := (detachPrev (normCtx s)).1.recs ++ [{ fn := f, arg := arg }],
-          routine := some (detachPrev (normCtx s)).1.recs.length } : St) = S at hcur
-      have hSr : S.routine = some (detachPrev (normCtx s)).1.recs.length := by rw [← hS]
-      have hSc : curInst S = none := by rw [← hS]; simp [curInst, curRec]
-      have hSl : S.insts.length = s.insts.length := by rw [← hS]; exact hlen
-      have hcur' : curInst (startRec S (detachPrev (normCtx s)).1.recs.length S.ctx (detachPrev (normCtx s)).2.1 false) = some n := by
-        rw [← hS] at hcur ⊢; exact hcur
-      rcases curInst_startRec S _ S.ctx (detachPrev (normCtx s)).2.1 false hSr with e | e
-      · rw [e, hSc] at hcur'; cases hcur'
-      · rw [e] at hcur'; cases hcur'; omega
+    · have key : ∀ (S : St) (r : Nat), S.routine = some r → S.insts.length = s.insts.length → curInst S = none →
+          ∀ (c : Nat) (w : Option Nat) (n : Nat), curInst (startRec S r c w false).bcastNow = some n →
+          s.insts.length ≤ n := by
+        intro S r hSr hSl hSc c w n hc
+        have hc' : curInst (startRec S r c w false) = some n := hc
+        rcases curInst_startRec S r c w false hSr with e | e
+        · rw [e, hSc] at hc'; cases hc'
+        · rw [e] at hc'; cases hc'; omega
+      dsimp only at hcur
+      refine key _ _ ?_ ?_ ?_ _ _ n hcur
+      · rfl
+      · exact hlen
+      · simp [curInst, curRec]
     · have : curInst ({ (detachPrev (normCtx s)).1 with
           recs := (detachPrev (normCtx s)).1.recs ++ [{ fn := f, arg := arg, exitedCh := (detachPrev (normCtx s)).2.1 }],
           routine := some (detachPrev (normCtx s)).1.recs.length } : St).bcastNow = none := by
@@ -498,5 +500,682 @@ theorem curNew_setRoutineLocked (s : St) (f arg : Nat) : CurNew s (setRoutineLoc
     · have : curInst ({ (detachPrev (normCtx s)).1 with cleared := (detachPrev (normCtx s)).2.1 } : St).bcastNow = none := e1
       rw [this] at hcur; cases hcur
     · rw [e1] at hcur; cases hcur
+
+theorem setContextCS_zero_ctx (s : St) (r : Bool) : (setContextCS s 0 r).1.ctx = 0 := by
+  simp only [setContextCS]
+  split
+  · rename_i h; simp only [Bool.and_eq_true] at h; simpa using h.1
+  · split
+    · rfl
+    · split
+      · rfl
+      · split
+        · rfl
+        · split
+          · rfl
+          · split
+            · rename_i h; simp at h
+            · simp only [bcastNow_recs, St.bcastNow, stopRec_ctx]
+
+/-- after a critical section that dooms (see `doomsRet`), every instance that existed before it has a cancelled
+context -/
+theorem doom_cs (s : St) (cf : Cfg) (op : Op) (r : St × Res × Option Nat) (h : apiCS s cf op = some r)
+    (hd : doomsRet op.isClearCtx r.2.1 = true) (hc : Cur r.1) (hi : I1 r.1)
+    (n : Nat) (x' : Inst) (hn : n < s.insts.length) (hx' : r.1.insts[n]? = some x') : r.1.isCancelled x' = true := by
+  -- enough: `n` is not the current instance, or the container has no context
+  have fin : (CurNew s r.1 ∨ r.1.ctx = 0) → r.1.isCancelled x' = true := by
+    intro hor
+    by_cases hcur : curInst r.1 = some n
+    · rcases hor with hnew | hz
+      · have := hnew n hcur; omega
+      · by_cases hcl : x'.st = .closed
+        · simp [St.isCancelled, hi n x' hx' hcl]
+        · cases hlive : r.1.isCancelled x' with
+          | true => rfl
+          | false => exact absurd hz (hc.2 n x' hcur hx' hcl hlive).2
+    · exact hc.1.sc n x' hx' hcur
+  cases op with
+  | setContext c restart =>
+    simp [apiCS] at h; subst h
+    simp only [doomsRet, Bool.or_eq_true] at hd
+    apply fin
+    rcases curNew_setContextCS s c restart with e | e
+    · rcases hd with hd | hd
+      · rw [e] at hd; cases hd
+      · right
+        have hc0 : c = 0 := by
+          cases c with
+          | zero => rfl
+          | succ m => simp [Op.isClearCtx] at hd
+        subst hc0; exact setContextCS_zero_ctx s restart
+    · exact Or.inl e
+  | setRoutine f =>
+    simp only [apiCS] at h
+    split at h
+    · cases h
+    · simp at h; subst h; exact fin (Or.inl (curNew_setRoutineLocked s f 0))
+  | restart =>
+    simp [apiCS] at h; subst h
+    simp only [doomsRet, Op.isClearCtx, Bool.or_false] at hd
+    apply fin
+    rcases curNew_restartCS s with e | e
+    · rw [e] at hd; cases hd
+    · exact Or.inl e
+  | setState v =>
+    simp only [apiCS] at h
+    split at h
+    · cases h
+    · simp at h; subst h
+      simp only [doomsRet, setStateCS] at hd
+      apply fin
+      left
+      simp only [setStateCS]
+      split
+      · simp only [updateStateRoutine]
+        exact curNew_setRoutineLocked { s with sval := v } _ _
+      · rename_i hnc; simp [hnc] at hd
+  | setStateRoutine f =>
+    simp only [apiCS] at h
+    split at h
+    · cases h
+    · simp at h; subst h
+      apply fin
+      left
+      simp only [updateStateRoutine]
+      exact curNew_setRoutineLocked { s with sfn := f } _ _
+  | swap k =>
+    simp only [apiCS] at h
+    split at h
+    · cases h
+    · split at h
+      · split at h
+        · simp only [Option.some.injEq] at h; subst h
+          simp only [doomsRet, setStateCS] at hd
+          apply fin
+          left
+          simp only [setStateCS]
+          split
+          · simp only [updateStateRoutine]
+            exact curNew_setRoutineLocked _ _ _
+          · rename_i hnc; simp [hnc] at hd
+        · simp only [Option.some.injEq] at h; subst h; simp [doomsRet] at hd
+      · simp at h; subst h; simp [doomsRet] at hd
+  | getState =>
+    simp only [apiCS] at h
+    split at h
+    · cases h
+    · simp at h; subst h; simp [doomsRet] at hd
+  | waitExited _ => simp [apiCS] at h
+
+/-! ## the monitor's doomed set against the model -/
+
+structure DoomLink (s : St) (ms : C05aSt) : Prop where
+  dv : ∀ (k n : Nat), s.ent[k]? = some n → n < s.insts.length
+  dr : ∀ k ∈ ms.running, k < s.ent.length
+  d1 : ∀ k ∈ ms.doomed, ∀ n : Nat, s.ent[k]? = some n → ctxErrOf s n = true
+  d2 : ∀ (a : Nat) (c : Call) (r : Res), s.calls[a]? = some c → c.st = .done r →
+        doomsRet (ms.clears.contains a) r = true →
+        ∀ k ∈ lookupSnap ms.snaps a, ∀ n : Nat, s.ent[k]? = some n → ctxErrOf s n = true
+  d3 : ∀ q ∈ ms.snaps, q.1 < s.calls.length
+  d4 : ∀ q ∈ ms.snaps, ∀ k ∈ q.2, k < s.ent.length
+  d5 : ∀ (a : Nat) (c : Call), s.calls[a]? = some c → ms.clears.contains a = c.op.isClearCtx
+  d6 : ∀ a ∈ ms.clears, a < s.calls.length
+  d7 : ∀ k ∈ ms.doomed, k < s.ent.length
+
+theorem doomLink_init : DoomLink {} {} := by
+  refine ⟨?_, ?_, ?_, ?_, ?_, ?_, ?_, ?_, ?_⟩ <;> intros <;> simp_all
+
+theorem stepMono_len {s s' : St} (h : StepMono s s') : s.insts.length ≤ s'.insts.length := by
+  rcases Nat.lt_or_ge s'.insts.length s.insts.length with hlt | hge
+  · have hl : s'.insts.length < s.insts.length := hlt
+    obtain ⟨y, h1, _⟩ := h.old s'.insts.length _ (List.getElem?_eq_getElem hl)
+    have := get_lt h1; omega
+  · exact hge
+
+/-- frame: entry table unchanged, calls unchanged up to waking parked waiters -/
+theorem DoomLink.keep {s s' : St} {ms : C05aSt} (h : DoomLink s ms) (hm : StepMono s s') (he : s'.ent = s.ent)
+    (hw : WrSame s s') : DoomLink s' ms := by
+  have hlen := stepMono_len hm
+  refine ⟨?_, ?_, ?_, ?_, ?_, ?_, ?_, ?_, by intro k hk; rw [he]; exact h.d7 k hk⟩
+  · intro k n hk; rw [he] at hk; have := h.dv k n hk; omega
+  · intro k hk; rw [he]; exact h.dr k hk
+  · intro k hk n hn; rw [he] at hn
+    exact ctxErr_mono hm n (h.dv k n hn) (h.d1 k hk n hn)
+  · intro a c' r hc' hst hd k hk n hn
+    rw [he] at hn
+    obtain ⟨c, hc, _, hiff⟩ := hw.dn a c' hc'
+    exact ctxErr_mono hm n (h.dv k n hn) (h.d2 a c r hc ((hiff r).1 hst) hd k hk n hn)
+  · intro q hq; rw [hw.len]; exact h.d3 q hq
+  · intro q hq k hk; rw [he]; exact h.d4 q hq k hk
+  · intro a c' hc'
+    obtain ⟨c, hc, hop, _⟩ := hw.dn a c' hc'
+    rw [h.d5 a c hc, hop]
+  · intro a ha; rw [hw.len]; exact h.d6 a ha
+
+/-- one call changes its status without its critical section being (newly) reported as done -/
+theorem DoomLink.setCall' {s : St} {ms : C05aSt} (h : DoomLink s ms) (a : Nat) (c c' : Call)
+    (hc : s.calls[a]? = some c) (hop : c'.op = c.op)
+    (hdn : ∀ r, c'.st = .done r → c.st = .done r ∨ doomsRet (ms.clears.contains a) r = false) :
+    DoomLink (setCall s a c') ms := by
+  have hlt := get_lt hc
+  have hget : ∀ b, (setCall s a c').calls[b]? = if a = b then some c' else s.calls[b]? := by
+    intro b; simp [setCall, List.getElem?_set, hlt]
+  refine ⟨h.dv, h.dr, h.d1, ?_, ?_, h.d4, ?_, ?_, h.d7⟩
+  · intro b cb r hcb hst hd k hk n hn
+    rw [hget] at hcb
+    by_cases hab : a = b
+    · subst hab
+      simp at hcb; subst hcb
+      rcases hdn r hst with e | e
+      · exact h.d2 a c r hc e hd k hk n hn
+      · rw [e] at hd; cases hd
+    · simp [hab] at hcb; exact h.d2 b cb r hcb hst hd k hk n hn
+  · intro q hq; simpa [setCall] using h.d3 q hq
+  · intro b cb hcb
+    rw [hget] at hcb
+    by_cases hab : a = b
+    · subst hab; simp at hcb; subst hcb; rw [hop]; exact h.d5 a c hc
+    · simp [hab] at hcb; exact h.d5 b cb hcb
+  · intro b hb; simpa [setCall] using h.d6 b hb
+
+theorem DoomLink.congr {s : St} {ms ms' : C05aSt} (h : DoomLink s ms) (e1 : ms'.running = ms.running)
+    (e2 : ms'.snaps = ms.snaps) (e3 : ms'.doomed = ms.doomed) (e4 : ms'.clears = ms.clears) : DoomLink s ms' := by
+  cases ms; cases ms'; simp only at e1 e2 e3 e4; subst e1 e2 e3 e4; exact h
+
+theorem ite_done {c : Bool} {e : Option Nat} {r : Res}
+    (h : (if c = true then CallSt.done (.wx e) else CallSt.parked false) = .done r) : r = .wx e := by
+  cases c <;> simp at h
+  exact h.symm
+
+theorem waitSample_done (s : St) (rinr : Bool) (r : Res) (h : (waitSample s rinr).2 = .done r) : ∃ e, r = .wx e := by
+  unfold waitSample at h
+  dsimp only at h
+  exact ⟨_, ite_done h⟩
+
+theorem monC05a_ret (ms : C05aSt) (a : Nat) (r : Res) :
+    monC05a.step ms (.ret a r) =
+      some (if doomsRet (ms.clears.contains a) r then { ms with doomed := lookupSnap ms.snaps a ++ ms.doomed } else ms) := rfl
+
+/-- one step of the model against the doomed-instances monitor -/
+theorem doom_step (s s' : St) (e : Ev) (ms : C05aSt) (hl : DoomLink s ms) (ha : AllRec s) (hc : Cur s) (hi : I1 s)
+    (hs : step s e = some s') :
+    match Ev.obs e with
+    | none => DoomLink s' ms
+    | some o => ∃ ms', monC05a.step ms o = some ms' ∧ DoomLink s' ms' := by
+  have hm := step_mono s s' e ha hs
+  have hc' := step_cur s s' e hc ha hs
+  have hi' := i1_step hi hm
+  cases e with
+  | cfg c =>
+    simp only [step, stepI] at hs
+    split at hs
+    · simp at hs; subst hs; exact ⟨ms, rfl, hl.keep hm rfl (WrSame.of_eq rfl)⟩
+    · cases hs
+  | inv a op =>
+    simp only [step, stepI] at hs
+    split at hs
+    · rename_i hcfg
+      simp at hs; subst hs
+      have haeq : a = s.calls.length := hcfg.2
+      subst haeq
+      refine ⟨_, rfl, ?_⟩
+      have hold : ∀ (b : Nat) (cb : Call), (s.calls ++ [({ op := op } : Call)])[b]? = some cb →
+          (b < s.calls.length ∧ s.calls[b]? = some cb) ∨ (b = s.calls.length ∧ cb = { op := op }) := by
+        intro b cb hcb
+        by_cases hlt : b < s.calls.length
+        · left; exact ⟨hlt, by simpa [List.getElem?_append_left hlt] using hcb⟩
+        · right
+          simp only [List.getElem?_append, hlt, if_false] at hcb
+          rcases Nat.lt_or_ge (b - s.calls.length) 1 with g | g
+          · have e0 : b - s.calls.length = 0 := by omega
+            rw [e0] at hcb; simp at hcb
+            exact ⟨by omega, hcb.symm⟩
+          · have : [({ op := op } : Call)][b - s.calls.length]? = none := List.getElem?_eq_none (by simpa using g)
+            rw [this] at hcb; cases hcb
+      have hnot : ms.clears.contains s.calls.length = false := by
+        cases hcn : ms.clears.contains s.calls.length with
+        | false => rfl
+        | true => have := hl.d6 s.calls.length (by simpa using hcn); omega
+      have hclr : ∀ b, b < s.calls.length →
+          (if op.isClearCtx = true then s.calls.length :: ms.clears else ms.clears).contains b = ms.clears.contains b := by
+        intro b hb
+        have hne : b ≠ s.calls.length := by omega
+        split
+        · simp [hne]
+        · rfl
+      refine ⟨hl.dv, hl.dr, hl.d1, ?_, ?_, ?_, ?_, ?_, hl.d7⟩
+      · intro b cb r hcb hst hd k hk n hn
+        rcases hold b cb hcb with ⟨hlt, hcb0⟩ | ⟨_, hcb0⟩
+        · have hk' : k ∈ lookupSnap ms.snaps b := by
+            have hne : ¬ (s.calls.length == b) = true := by simp; omega
+            simpa [lookupSnap, List.find?_cons, hne] using hk
+          have hd' : doomsRet (ms.clears.contains b) r = true := by
+            have := hclr b hlt
+            simp only at hd
+            rw [this] at hd; exact hd
+          exact hl.d2 b cb r hcb0 hst hd' k hk' n hn
+        · subst hcb0; cases hst
+      · intro q hq
+        simp only [List.mem_cons] at hq
+        rcases hq with e0 | e0
+        · subst e0; simp
+        · have := hl.d3 q e0; simp; omega
+      · intro q hq k hk
+        simp only [List.mem_cons] at hq
+        rcases hq with e0 | e0
+        · subst e0; exact hl.dr k hk
+        · exact hl.d4 q e0 k hk
+      · intro b cb hcb
+        rcases hold b cb hcb with ⟨hlt, hcb0⟩ | ⟨hb, hcb0⟩
+        · have := hclr b hlt
+          simp only
+          rw [this]; exact hl.d5 b cb hcb0
+        · subst hb; subst hcb0
+          simp only
+          cases hcc : op.isClearCtx with
+          | true => simp
+          | false => simpa using hnot
+      · intro b hb
+        simp only at hb
+        split at hb
+        · simp only [List.mem_cons] at hb
+          rcases hb with e0 | e0
+          · subst e0; simp
+          · have := hl.d6 b e0; simp; omega
+        · have := hl.d6 b hb; simp; omega
+    · cases hs
+  | cs a =>
+    simp only [step, stepI] at hs
+    split at hs
+    · rename_i cf c hcf hca
+      split at hs
+      · rename_i hinv
+        split at hs
+        · split at hs
+          · rename_i rinr hop _
+            simp at hs; subst hs
+            have hm0 : StepMono s (waitSample s rinr).1 :=
+              StepMono.frame (by simp [waitSample]) (by intro c h; simpa [waitSample] using h)
+            have h1 : DoomLink (waitSample s rinr).1 ms :=
+              hl.keep hm0 (by simp [waitSample]) (WrSame.of_eq (by simp [waitSample]))
+            have hc1 : (waitSample s rinr).1.calls[a]? = some c := by simpa [waitSample] using hca
+            refine h1.setCall' a c _ hc1 rfl ?_
+            intro r hr
+            right
+            have : ∃ e, r = .wx e := waitSample_done s rinr r hr
+            obtain ⟨e, he⟩ := this
+            subst he; rfl
+          · cases hs
+        · split at hs
+          · cases hs
+          · split at hs
+            · rename_i r hr
+              simp at hs; subst hs
+              have hw := wrSame_apiCS s cf c.op r hr
+              have hent := apiCS_ent s cf c.op r hr
+              have hlt : a < r.1.calls.length := by rw [hw.len]; exact get_lt hca
+              have hlen := stepMono_len hm
+              have hget : ∀ b, (setCall r.1 a { c with st := .done r.2.1, wr := r.2.2 }).calls[b]? =
+                  if a = b then some { c with st := .done r.2.1, wr := r.2.2 } else r.1.calls[b]? := by
+                intro b; simp [setCall, List.getElem?_set, hlt]
+              refine ⟨?_, ?_, ?_, ?_, ?_, ?_, ?_, ?_, by intro k hk; show k < r.1.ent.length; rw [hent]; exact hl.d7 k hk⟩
+              · intro k n hk
+                have hk' : s.ent[k]? = some n := by rw [← hent]; exact hk
+                have := hl.dv k n hk'
+                have hlen' : s.insts.length ≤ r.1.insts.length := hlen
+                show n < r.1.insts.length
+                omega
+              · intro k hk; show k < r.1.ent.length; rw [hent]; exact hl.dr k hk
+              · intro k hk n hn
+                have hn' : s.ent[k]? = some n := by rw [← hent]; exact hn
+                exact ctxErr_mono hm n (hl.dv k n hn') (hl.d1 k hk n hn')
+              · intro b cb r0 hcb hst hd k hk n hn
+                have hn' : s.ent[k]? = some n := by rw [← hent]; exact hn
+                have hnlt := hl.dv k n hn'
+                rw [hget] at hcb
+                by_cases hab : a = b
+                · subst hab
+                  simp only [if_true, Option.some.injEq] at hcb
+                  subst hcb
+                  simp only [CallSt.done.injEq] at hst
+                  subst hst
+                  rw [hl.d5 a c hca] at hd
+                  have hnlt' : n < r.1.insts.length := Nat.lt_of_lt_of_le hnlt hlen
+                  obtain ⟨x', hx'⟩ : ∃ x', r.1.insts[n]? = some x' := ⟨_, List.getElem?_eq_getElem hnlt'⟩
+                  have hcr : Cur r.1 := hc'.frame rfl rfl rfl rfl rfl
+                  have hir : I1 r.1 := hi'
+                  have := doom_cs s cf c.op r hr hd hcr hir n x' hnlt hx'
+                  simp only [ctxErrOf]
+                  have hx'' : (setCall r.1 a { c with st := .done r.2.1, wr := r.2.2 }).insts[n]? = some x' := hx'
+                  rw [hx'']; exact this
+                · simp only [hab, if_false] at hcb
+                  obtain ⟨c0, hc0, _, hiff⟩ := hw.dn b cb hcb
+                  exact ctxErr_mono hm n hnlt (hl.d2 b c0 r0 hc0 ((hiff r0).1 hst) hd k hk n hn')
+              · intro q hq; simp only [setCall, List.length_set]; rw [hw.len]; exact hl.d3 q hq
+              · intro q hq k hk; show k < r.1.ent.length; rw [hent]; exact hl.d4 q hq k hk
+              · intro b cb hcb
+                rw [hget] at hcb
+                by_cases hab : a = b
+                · subst hab
+                  simp only [if_true, Option.some.injEq] at hcb
+                  subst hcb; exact hl.d5 a c hca
+                · simp only [hab, if_false] at hcb
+                  obtain ⟨c0, hc0, hop, _⟩ := hw.dn b cb hcb
+                  rw [hl.d5 b c0 hc0, hop]
+              · intro b hb; simp only [setCall, List.length_set]; rw [hw.len]; exact hl.d6 b hb
+            · cases hs
+      · cases hs
+    · cases hs
+  | ret a r =>
+    simp only [step, stepI] at hs
+    split at hs
+    · rename_i c hca
+      have h1 := hl.setCall' a c { c with st := .finished } hca rfl (by intro r0 h0; cases h0)
+      have fin : (c.st = .done r ∨ doomsRet (ms.clears.contains a) r = false) →
+          ∃ ms', monC05a.step ms (.ret a r) = some ms' ∧ DoomLink (setCall s a { c with st := .finished }) ms' := by
+        intro hor
+        by_cases hd : doomsRet (ms.clears.contains a) r = true
+        · refine ⟨{ ms with doomed := lookupSnap ms.snaps a ++ ms.doomed }, by rw [monC05a_ret, hd]; rfl, ?_⟩
+          have hst : c.st = .done r := by
+            rcases hor with e0 | e0
+            · exact e0
+            · rw [e0] at hd; cases hd
+          refine ⟨h1.dv, h1.dr, ?_, h1.d2, h1.d3, h1.d4, h1.d5, h1.d6, ?_⟩
+          · intro k hk n hn
+            rcases List.mem_append.1 hk with e0 | e0
+            · exact hl.d2 a c r hca hst hd k e0 n hn
+            · exact hl.d1 k e0 n hn
+          · intro k hk
+            rcases List.mem_append.1 hk with e0 | e0
+            · obtain ⟨q, hq, _, hkq⟩ := lookupSnap_mem e0
+              exact hl.d4 q hq k hkq
+            · exact hl.d7 k e0
+        · have hd' : doomsRet (ms.clears.contains a) r = false := by
+            cases h0 : doomsRet (ms.clears.contains a) r with
+            | false => rfl
+            | true => exact absurd h0 hd
+          exact ⟨ms, by rw [monC05a_ret, hd']; rfl, h1⟩
+      split at hs
+      · rename_i hst
+        simp at hs; subst hs
+        exact fin (Or.inl hst)
+      · split at hs
+        · rename_i hst
+          simp at hs; subst hs
+          exact fin (Or.inr (by rw [hst.2]; rfl))
+        · cases hs
+    · cases hs
+  | wake a =>
+    simp only [step, stepI] at hs
+    split at hs
+    · rename_i c hca
+      split at hs
+      · split at hs
+        · simp at hs; subst hs
+          exact hl.setCall' a c _ hca rfl (by intro r0 h0; cases h0)
+        · cases hs
+      · cases hs
+    · cases hs
+  | wctx a =>
+    simp only [step, stepI] at hs
+    split at hs
+    · rename_i c hca
+      split at hs
+      · split at hs
+        · simp at hs; subst hs
+          exact hl.setCall' a c _ hca rfl (by intro r0 h0; cases h0)
+        · cases hs
+      · cases hs
+    · cases hs
+  | envCancel c =>
+    simp only [step, stepI] at hs
+    split at hs
+    · simp at hs; subst hs; exact ⟨ms, rfl, hl.keep hm rfl (WrSame.of_eq rfl)⟩
+    · cases hs
+  | envDo c =>
+    simp only [step, stepI] at hs
+    split at hs
+    · simp at hs; subst hs; exact hl.keep hm rfl (WrSame.of_eq rfl)
+    · cases hs
+  | envCancelW a =>
+    simp only [step, stepI] at hs
+    split at hs
+    · split at hs
+      · simp at hs; subst hs; exact ⟨ms, rfl, hl.keep hm rfl (WrSame.of_eq rfl)⟩
+      all_goals cases hs
+    · cases hs
+  | giveUp n =>
+    simp only [step, stepI] at hs
+    split at hs
+    · split at hs
+      · split at hs
+        · simp at hs; subst hs; exact hl.keep hm rfl (WrSame.of_eq rfl)
+        · simp at hs; subst hs; exact hl.keep hm rfl (WrSame.of_eq rfl)
+      · cases hs
+    · cases hs
+  | drained n =>
+    simp only [step, stepI] at hs
+    split at hs
+    · split at hs
+      · simp at hs; subst hs; exact hl.keep hm rfl (WrSame.of_eq rfl)
+      · cases hs
+    · cases hs
+  | cbin k n f arg root =>
+    simp only [step, stepI] at hs
+    split at hs
+    · rename_i x hx
+      split at hs
+      · split at hs
+        · rename_i hgd
+          simp at hs; subst hs
+          have hk : k = s.ent.length := hgd.2.2.2.1
+          have hm1 : StepMono s (setInst s n { x with st := .running }) :=
+            StepMono.of_setInst s n x _ hx rfl id (by simp)
+          have h1 : DoomLink (setInst s n { x with st := .running }) ms := hl.keep hm1 rfl (WrSame.of_eq rfl)
+          have hentget : ∀ k' m, (s.ent ++ [n])[k']? = some m → k' < s.ent.length → s.ent[k']? = some m := by
+            intro k' m h0 hlt; rwa [List.getElem?_append_left hlt] at h0
+          refine ⟨{ ms with running := ms.running ++ [k] }, rfl, ?_, ?_, ?_, ?_, h1.d3, ?_, h1.d5, h1.d6,
+            by intro k' hk'; have := hl.d7 k' hk'; show k' < (s.ent ++ [n]).length; simp; omega⟩
+          · intro k' m hk'
+            have hk'' : (s.ent ++ [n])[k']? = some m := hk'
+            by_cases hlt : k' < s.ent.length
+            · exact h1.dv k' m (hentget k' m hk'' hlt)
+            · simp only [List.getElem?_append, hlt, if_false] at hk''
+              rcases Nat.lt_or_ge (k' - s.ent.length) 1 with g | g
+              · have e0 : k' - s.ent.length = 0 := by omega
+                rw [e0] at hk''; simp at hk''; subst hk''
+                simpa [setInst] using get_lt hx
+              · have : [n][k' - s.ent.length]? = none := List.getElem?_eq_none (by simpa using g)
+                rw [this] at hk''; cases hk''
+          · intro k' hk'
+            show k' < (s.ent ++ [n]).length
+            rcases List.mem_append.1 hk' with e0 | e0
+            · have := hl.dr k' e0; simp; omega
+            · simp at e0; subst e0; simp [hk]
+          · intro k' hk' m hm'
+            have hlt : k' < s.ent.length := hl.d7 k' hk'
+            exact h1.d1 k' hk' m (hentget k' m hm' hlt)
+          · intro a c r hca hst hd k' hk' m hm'
+            obtain ⟨q, hq, _, hkq⟩ := lookupSnap_mem hk'
+            have hlt := hl.d4 q hq k' hkq
+            exact h1.d2 a c r hca hst hd k' hk' m (hentget k' m hm' hlt)
+          · intro q hq k' hk'
+            have := hl.d4 q hq k' hk'
+            show k' < (s.ent ++ [n]).length
+            simp; omega
+        · cases hs
+      · cases hs
+    · cases hs
+  | cbout k o =>
+    simp only [step, stepI] at hs
+    split at hs
+    · split at hs
+      · split at hs
+        · simp at hs; subst hs
+          have h1 := hl.keep hm rfl (WrSame.of_eq rfl)
+          exact ⟨{ ms with running := ms.running.filter (· != k) }, rfl, h1.dv,
+            fun k' hk' => h1.dr k' (List.mem_filter.1 hk').1, h1.d1, h1.d2, h1.d3, h1.d4, h1.d5, h1.d6, h1.d7⟩
+        · cases hs
+      · cases hs
+    · cases hs
+  | closeExit n =>
+    simp only [step, stepI] at hs
+    split at hs
+    · split at hs
+      · simp at hs; subst hs; exact hl.keep hm rfl (WrSame.of_eq rfl)
+      · cases hs
+    · cases hs
+  | record n dur =>
+    simp only [step, stepI] at hs
+    split at hs
+    · rename_i cf x _ hx
+      split at hs
+      · exact hl.keep hm (recordCS_ent s s' cf n x dur hs) (wrSame_recordCS s s' cf n x dur hs)
+      · cases hs
+    · cases hs
+  | emit o =>
+    have hline : o.isLine = true := by
+      simp only [step, stepI] at hs
+      split at hs
+      · split at hs
+        · rename_i h0; exact h0.2
+        · cases hs
+      · cases hs
+    simp only [step, stepI] at hs
+    split at hs
+    · split at hs
+      · simp at hs; subst hs
+        have h1 := hl.keep hm rfl (WrSame.of_eq rfl)
+        cases o <;> simp [Obs.isLine] at hline
+        all_goals exact ⟨ms, rfl, h1⟩
+      · cases hs
+    · cases hs
+  | fire t =>
+    simp only [step, stepI] at hs
+    split at hs
+    · split at hs
+      · simp at hs; subst hs; exact hl.keep hm rfl (WrSame.of_eq rfl)
+      · cases hs
+    · cases hs
+  | timerCS t =>
+    simp only [step, stepI] at hs
+    split at hs
+    · rename_i tm htm
+      split at hs
+      · simp at hs; subst hs
+        exact hl.keep hm (by simp) ((WrSame.of_eq (s := s) (s' := { s with timers := s.timers.set t { tm with st := .dead } }) rfl).trans
+          (wrSame_timerBody _ t tm.rid))
+      · cases hs
+    · cases hs
+  | probeCtx k b =>
+    simp only [step, stepI] at hs
+    split at hs
+    · rename_i n hn
+      split at hs
+      · rename_i hb
+        simp at hs; subst hs
+        cases b with
+        | true => exact ⟨ms, rfl, hl⟩
+        | false =>
+          refine ⟨ms, ?_, hl⟩
+          have : ms.doomed.contains k = false := by
+            cases hcn : ms.doomed.contains k with
+            | false => rfl
+            | true =>
+              have := hl.d1 k (by simpa using hcn) n hn
+              rw [this] at hb; cases hb
+          simp only [monC05a, this]; rfl
+      · cases hs
+    · cases hs
+  | probeW a b =>
+    simp only [step, stepI] at hs
+    split at hs
+    · split at hs
+      · split at hs
+        · simp at hs; subst hs; exact ⟨ms, rfl, hl⟩
+        · cases hs
+      · cases hs
+    · cases hs
+  | quiesce p r l =>
+    simp only [step] at hs
+    split at hs
+    · simp at hs; subst hs; exact ⟨ms, rfl, hl⟩
+    · cases hs
+
+theorem i1_init : I1 {} := by intro n x hx; simp at hx
+
+theorem doom_run (s0 s : St) (ms0 : C05aSt) (es : List Ev) (ha : AllRec s0) (hc : Cur s0) (hi : I1 s0)
+    (hl : DoomLink s0 ms0) (hr : model.run s0 es = some s) :
+    ∃ ms, monC05a.run ms0 (es.filterMap model.obs) = some ms ∧ DoomLink s ms := by
+  induction es generalizing s0 ms0 with
+  | nil => simp [OLTS.run] at hr; subst hr; exact ⟨ms0, rfl, hl⟩
+  | cons e es ih =>
+    simp only [OLTS.run] at hr
+    cases hst : model.step s0 e with
+    | none => simp [hst] at hr
+    | some s1 =>
+      simp [hst] at hr
+      have ha1 := (step_ok s0 s1 e ha hst).1
+      have hc1 := step_cur s0 s1 e hc ha hst
+      have hi1 := i1_step hi (step_mono s0 s1 e ha hst)
+      have hstep := doom_step s0 s1 e ms0 hl ha hc hi hst
+      cases hob : Ev.obs e with
+      | none =>
+        rw [hob] at hstep
+        obtain ⟨ms, h1, h2⟩ := ih s1 ms0 ha1 hc1 hi1 hstep hr
+        refine ⟨ms, ?_, h2⟩
+        have : model.obs e = none := hob
+        simpa [List.filterMap_cons, this] using h1
+      | some o =>
+        rw [hob] at hstep
+        obtain ⟨ms1, hm1, hl1⟩ := hstep
+        obtain ⟨ms, h1, h2⟩ := ih s1 ms1 ha1 hc1 hi1 hl1 hr
+        refine ⟨ms, ?_, h2⟩
+        have : model.obs e = some o := hob
+        simp [List.filterMap_cons, this, ObsMonitor.run, hm1, h1]
+
+/-! ## at most one executing instance has a live context -/
+
+theorem length_le_one_of_all_eq {l : List Nat} (hn : l.Nodup) (h : ∀ a ∈ l, ∀ b ∈ l, a = b) : l.length ≤ 1 := by
+  cases l with
+  | nil => simp
+  | cons a t =>
+    cases t with
+    | nil => simp
+    | cons b t' =>
+      have := h a (by simp) b (by simp)
+      subst this
+      simp at hn
+
+theorem liveKs_le_one (s : St) (ms : C04St) (hc : Cur s) (hl : LinkA s ms) : (liveKs s).length ≤ 1 := by
+  apply length_le_one_of_all_eq
+  · unfold liveKs runningKs
+    exact (List.nodup_range.filter _).filter _
+  · intro k1 h1 k2 h2
+    have key : ∀ k ∈ liveKs s, ∃ n, s.ent[k]? = some n ∧ curInst s = some n := by
+      intro k hk
+      simp only [liveKs, List.mem_filter] at hk
+      obtain ⟨_, hlive⟩ := hk
+      cases hn : s.ent[k]? with
+      | none => simp [hn] at hlive
+      | some n =>
+        simp only [hn] at hlive
+        refine ⟨n, rfl, ?_⟩
+        cases hx : s.insts[n]? with
+        | none => simp [ctxErrOf, hx] at hlive
+        | some x =>
+          have hnc : s.isCancelled x = false := by simpa [ctxErrOf, hx] using hlive
+          cases hd : decide (curInst s = some n) with
+          | true => simpa using hd
+          | false =>
+            have : curInst s ≠ some n := by simpa using hd
+            have := hc.1.sc n x hx this
+            rw [this] at hnc; cases hnc
+    obtain ⟨n1, e1, c1⟩ := key k1 h1
+    obtain ⟨n2, e2, c2⟩ := key k2 h2
+    rw [c1] at c2
+    have : n1 = n2 := Option.some.inj c2
+    subst this
+    exact hl.l4 k1 k2 n1 e1 e2
 
 end UtilModel.Routine
